@@ -245,8 +245,10 @@ pub fn tokenize(text: &str) -> RefDoc {
                 if let Some(j) = close {
                     doc.classes[j] = LineClass::ScrutClose(bidx);
                 }
-                let cfg = config.as_ref().and_then(|c| c.strip_prefix('{')).and_then(|c| c.strip_suffix('}')).map(|c| c.to_string()).filter(|c| !c.is_empty());
-                if config.is_some() && cfg.is_none() && config.as_deref() != Some("{}") {
+                // blanks after the closing brace do not count; a group that holds nothing but blanks is no configuration
+                let cfg = config.as_ref().map(|c| c.trim_end()).and_then(|c| c.strip_prefix('{')).and_then(|c| c.strip_suffix('}')).map(|c| c.to_string()).filter(|c| !c.trim().is_empty());
+                let empty_group = config.as_ref().map(|c| c.trim_end()).and_then(|c| c.strip_prefix('{')).and_then(|c| c.strip_suffix('}')).map(|c| c.trim().is_empty()).unwrap_or(false);
+                if config.is_some() && cfg.is_none() && !empty_group {
                     doc.unspecified = Some("config that is not a single {...} group");
                 }
                 doc.blocks.push((lang.clone(), cfg.clone(), matches!(parsed, Body::Test { .. })));
